@@ -11,6 +11,7 @@ CONSTANTS
   DSeqs = {1, 11, 111}
   GSeqs = {1, 11, 111}
   OSeqs = {1, 11, 111}
-  MaxGroupsD = 12
+  MaxGroupsD = 16
+  MaxGroupsG = 8
 INIT ExportInit
 NEXT ExportNext
